@@ -20,3 +20,10 @@ def nongp(case, fail):
     if "env" not in case or "expr" not in case:
         return False
     return (not OC.env_general_position(case["env"])) or (not OC.linear(case["expr"]))
+
+
+@cls("float_encoding")
+def float_encoding(case, fail):
+    """F9: == compares float areas bit for bit (and points within 1e-9): a float re-encoding of a shape can
+    compare unequal to the exact one because the float areas differ in the last bits"""
+    return case.get("xn") == "float" or case.get("yn") == "float"
